@@ -110,9 +110,9 @@ V("dupn-off-by-one", "C05", "pyteal/ast/frame.py", "        op = TealOp(self, Op
 V("localseg-count", "C05", "pyteal/ast/frame.py", "        return DupN(self.auto_instance, self.count - 1).__teal__(options)", "        return DupN(self.auto_instance, self.count).__teal__(options)", "R05.3")
 V("multivalue-stores-forward", "C05", "pyteal/ast/multi.py", "for slot in reversed(self.output_slots):", "for slot in self.output_slots:", "R05.3")
 V("require-type-anytype-none", "C05", "pyteal/types.py", "        expected == TealType.none\n        or actual == TealType.none\n        or ", "        expected == TealType.none\n        or ", "R05.6")
-V("while-cond-unchecked", "C05", "pyteal/ast/while_.py", "        require_type(cond, TealType.uint64)\n", "", "R05.4")
-V("for-step-unchecked", "C05", "pyteal/ast/for_.py", "        require_type(step, TealType.none)\n", "", "R05.4")
-V("seq-check-all-but-first", "C05", "pyteal/ast/seq.py", "            if i + 1 < len(exprs):", "            if 0 < i + 1 < len(exprs) - 1:", "R05.4")
+V("while-cond-unchecked", "C05", "pyteal/ast/while_.py", "        require_type(cond, TealType.uint64)\n", "", "R05.10")
+V("for-step-unchecked", "C05", "pyteal/ast/for_.py", "        require_type(step, TealType.none)\n", "", "R05.10")
+V("seq-check-all-but-first", "C05", "pyteal/ast/seq.py", "            if i + 1 < len(exprs):", "            if 0 < i + 1 < len(exprs) - 1:", "R05.10")
 
 # ------------------------------------------------------------------------------- C04
 V("sweep-mode-dropped", "C04", "pyteal/compiler/compiler.py", "        verifyOpsForMode(components, options.mode)\n", "", None)
@@ -342,6 +342,9 @@ V("twin-flatten-subroutines-local", "C04", "pyteal/compiler/flatten.py", "      
 # ------------------------------------------------------------------------------- round 3 rules
 V("asset-name-declared-uint64", "C05", "pyteal/ast/asset.py", "            TealType.bytes,\n            immediate_args=[\"AssetName\"],", "            TealType.uint64,\n            immediate_args=[\"AssetName\"],", "R05.8")
 V("asset-reserve-reads-freeze", "C05", "pyteal/ast/asset.py", "            immediate_args=[\"AssetReserve\"],", "            immediate_args=[\"AssetFreeze\"],", "R05.8")
+V("cond-compares-with-previous-arm-only", "C05", "pyteal/ast/cond.py", "                require_type(arg[1], value_type)\n", "                require_type(arg[1], value_type)\n                value_type = None\n", "R05.10")
+V("assert-extra-conds-skip-last", "C05", "pyteal/ast/assert_.py", "        for cond_single in additional_conds:\n", "        for cond_single in additional_conds[:-1]:\n", "R05.10")
+V("twin-while-do-check-via-local", "C05", "pyteal/ast/while_.py", "        require_type(doBlock, TealType.none)\n", "        wanted = TealType.none\n        require_type(doBlock, wanted)\n", None, "quiet")
 V("if-chain-else-unchecked", "C05", "pyteal/ast/if_.py", "            require_type(self.elseBranch, self.thenBranch.type_of())\n\n        return", "            pass\n\n        return", "R05.9")
 V("if-chain-only-plain-else-checked", "C05", "pyteal/ast/if_.py", "            require_type(self.elseBranch, self.thenBranch.type_of())\n\n        return", "            if not isinstance(self.elseBranch, If):\n                require_type(self.elseBranch, self.thenBranch.type_of())\n\n        return", "R05.9")
 V("twin-if-chain-local-type", "C05", "pyteal/ast/if_.py", "            require_type(self.elseBranch, self.thenBranch.type_of())\n\n        return", "            then_type = self.thenBranch.type_of()\n            require_type(self.elseBranch, then_type)\n\n        return", None, "quiet")
